@@ -355,7 +355,7 @@ pub fn term_sem(t: &Term, e: &CEnv) -> Option<bool> {
     })
 }
 
-fn gen_parse_term(rng: &mut Rng, p: &Pools, depth: usize) -> Term {
+pub fn gen_parse_term(rng: &mut Rng, p: &Pools, depth: usize) -> Term {
     if depth == 0 || rng.chance(1, 4) {
         loop {
             let a = gen_atom(rng, p, true);
@@ -490,6 +490,20 @@ pub fn run(out: &mut Out, tier: &str, seed: u64, prop: &str) {
                         }
                     }
                     out.stat("c17.requirement_level_evaluations");
+                }
+            }
+            // the same warnings reach the reporter a REQUIREMENT parser was given (named; unnamed with the extension feature)
+            {
+                let codes = |f: &mut dyn FnMut(&mut dyn FnMut(MarkerWarningKind, String))| -> String { let mut v: Vec<char> = Vec::new(); f(&mut |k, _m| v.push(warn_code(k))); v.into_iter().collect() };
+                let named = codes(&mut |rep| { let mut r = |k: MarkerWarningKind, m: String| rep(k, m); let _ = std::panic::catch_unwind(std::panic::AssertUnwindSafe(|| pep508_rs::Requirement::<pep508_rs::VerbatimUrl>::parse_reporter(&format!("pkg>=1 ; {with}"), "/work", &mut r))); });
+                out.evaluations += 1;
+                if named != warns { out.oracle_fail("C17", &format!("Requirement::parse_reporter passes other warnings to the supplied reporter ({named:?}) than MarkerTree::parse_reporter reports for the marker ({warns:?})"), input.clone()); }
+                #[cfg(feature = "ext")]
+                {
+                    let unnamed = codes(&mut |rep| { let mut r = |k: MarkerWarningKind, m: String| rep(k, m); let _ = std::panic::catch_unwind(std::panic::AssertUnwindSafe(|| pep508_rs::UnnamedRequirement::<pep508_rs::VerbatimUrl>::parse(&format!("https://example.org/p-1.0-py3-none-any.whl ; {with}"), "/work", &mut r))); });
+                    out.evaluations += 1;
+                    if unnamed != warns { out.oracle_fail("C17", &format!("UnnamedRequirement::parse passes other warnings to the supplied reporter ({unnamed:?}) than MarkerTree::parse_reporter reports for the marker ({warns:?})"), input.clone()); }
+                    out.stat("c17.unnamed_reporter");
                 }
             }
             out.stat("c17.positions");
